@@ -35,6 +35,7 @@ type Directives struct {
 	Split   bool // one ensures obligation per return site
 	NoPanic bool // skip panic-freedom obligations (must be justified)
 	Reveal  map[string]bool
+	Abstract map[string]bool // spec functions treated as uninterpreted (no definition) in this VC
 	Target  string // explicit target override: "pkgpath.Func" for external contracts
 	Timeout int
 	Unfold  int // spec functions: recursion is inlined up to this depth (then uninterpreted)
@@ -79,7 +80,7 @@ func (p *Prog) pos(ps token.Pos) string {
 var dirRe = regexp.MustCompile(`^//\s*@\s*(.*)$`)
 
 func parseDirectives(cg *ast.CommentGroup) *Directives {
-	d := &Directives{Inline: map[string]bool{}, Loops: map[int]*LoopDir{}, Reveal: map[string]bool{}}
+	d := &Directives{Inline: map[string]bool{}, Loops: map[int]*LoopDir{}, Reveal: map[string]bool{}, Abstract: map[string]bool{}}
 	if cg == nil {
 		return d
 	}
@@ -110,6 +111,10 @@ func parseDirectives(cg *ast.CommentGroup) *Directives {
 		case "inline":
 			for _, x := range f[1:] {
 				d.Inline[x] = true
+			}
+		case "abstract":
+			for _, x := range f[1:] {
+				d.Abstract[x] = true
 			}
 		case "reveal":
 			for _, x := range f[1:] {
